@@ -11,7 +11,7 @@ use gufo_snmp::buf::Buffer;
 use gufo_snmp::snmp::get::SnmpGet;
 use gufo_snmp::snmp::msg::v3::{MsgData, ScopedPdu, SnmpV3Message, UsmParameters};
 use gufo_snmp::snmp::msg::{SnmpPdu, SnmpV1Message, SnmpV2cMessage};
-use gufo_snmp::verif;
+use gufo_snmp::verif::{self, PrivKey, SnmpPriv};
 
 struct Out {
     cases: u64,
@@ -369,6 +369,62 @@ fn main() {
                     }
                     Ok(Err(m)) => o.fail(&format!("msg:v{}", if ver == 2 { 3 } else { ver + 1 }), m),
                     Err(p) => o.fail("msg-panic", p),
+                }
+            }
+        }
+        "priv" => {
+            // a request's scoped PDU encrypted by the library decrypts, by the library, to the same PDU (DES and AES)
+            for _ in 0..n {
+                o.cases += 1;
+                let alg = 1 + rng.below(2) as u8;
+                let key: Vec<u8> = (0..20).map(|_| rng.byte()).collect();
+                let noids = rng.below(8) as usize;
+                let oids: Vec<(String, Vec<u8>)> = (0..noids)
+                    .map(|_| {
+                        let m = 2 + rng.below(30);
+                        gen_oid(&mut rng, m)
+                    })
+                    .collect();
+                let rid = (rng.next() & 0x7fffffff) as i64;
+                let eng: Vec<u8> = (0..rng.below(33)).map(|_| rng.byte()).collect();
+                let boots = (rng.next() & 0x7fffffff) as u32;
+                let time = (rng.next() & 0x7fffffff) as u32;
+                let r = guarded(|| -> Result<usize, String> {
+                    let mut k1 = PrivKey::new(alg).map_err(|e| format!("{:?}", e))?;
+                    k1.as_localized(&key).map_err(|e| format!("{:?}", e))?;
+                    let mut k2 = PrivKey::new(alg).map_err(|e| format!("{:?}", e))?;
+                    k2.as_localized(&key).map_err(|e| format!("{:?}", e))?;
+                    // some history on both keys first
+                    for _ in 0..rng.below(3) {
+                        let sp = ScopedPdu { engine_id: &eng, pdu: SnmpPdu::GetRequest(SnmpGet { request_id: 1, vars: vec![] }) };
+                        let _ = k1.encrypt(&sp, 1, 1);
+                    }
+                    let vars: Vec<SnmpOid> = oids.iter().map(|(_, c)| SnmpOid::from(c.clone())).collect();
+                    let sp = ScopedPdu { engine_id: &eng, pdu: SnmpPdu::GetNextRequest(SnmpGet { request_id: rid, vars }) };
+                    let (data, salt) = k1.encrypt(&sp, boots, time).map_err(|e| format!("encrypt {:?}", e))?;
+                    let (data, salt) = (data.to_vec(), salt.to_vec());
+                    let usm = UsmParameters { engine_id: &eng, engine_boots: boots as i64, engine_time: time as i64, user_name: &[], auth_params: &[], privacy_params: &salt };
+                    let back = k2.decrypt(&data, &usm).map_err(|e| format!("decrypt of the library's own ciphertext ({} octets): {:?}", data.len(), e))?;
+                    if back.engine_id != eng.as_slice() {
+                        return Err("context engine id differs".into());
+                    }
+                    match back.pdu {
+                        SnmpPdu::GetNextRequest(g) => {
+                            let want: Vec<Vec<u8>> = oids.iter().map(|(_, c)| c.clone()).collect();
+                            if g.request_id != rid || g.vars.iter().map(|x| Vec::<u8>::from(x)).collect::<Vec<_>>() != want {
+                                return Err("PDU differs after encrypt/decrypt".into());
+                            }
+                        }
+                        _ => return Err("PDU kind differs".into()),
+                    }
+                    Ok(data.len())
+                });
+                match r {
+                    Ok(Ok(l)) => {
+                        o.classes.insert(format!("priv:{}:{}", alg, l % 16));
+                    }
+                    Ok(Err(m)) => o.fail(&format!("priv:{}", if alg == 1 { "des" } else { "aes" }), m),
+                    Err(p) => o.fail("priv-panic", p),
                 }
             }
         }
